@@ -2,7 +2,7 @@
 C08 — Service: each request gets exactly one outcome; contexts follow their schedule.
 Headline theorems about the model `Irismod.Service` (every state, every operation).
 -/
-import Irismod.Proofs.ServiceQueue
+import Irismod.Proofs.ServiceNoStale
 import Irismod.Spec.C08
 
 namespace Irismod.Props.C08
@@ -383,5 +383,17 @@ theorem not_expired_before_its_height (s : State) (hw : WF s) (rid : ReqId) (hr 
   have := hw.expM.1 _ _ ((mem_dueIds _ _ _).mp hm)
   rw [a7] at this
   exact hexp (Option.some.inj this)
+
+/-- **no stale queue entry**: one accepted operation keeps "every queue entry is for the current block or a
+later one" (together with the queue/marker invariant `WF` and well-timed contexts, bundle `NS`); over
+histories: `Irismod.Props.C13S.no_stale_entries` -/
+theorem no_stale_entry_step (s s' : State) (op : Op) (hs : NS s) (hf : FreshOp { s with cb := [] } op) (hv : opValidated op)
+    (h : step s op = .ok s') : Irismod.Spec.C13S.NoStale s' ∧ NS s' := by
+  unfold step at h
+  have h0 : NS { s with cb := [] } :=
+    ⟨hs.1.of_same ⟨rfl, rfl, rfl, rfl, rfl, rfl, rfl⟩, (CQ.of_same (s' := { s with cb := [] }) hs.2 rfl rfl rfl rfl).1,
+     (CQ.of_same (s' := { s with cb := [] }) hs.2 rfl rfl rfl rfl).2⟩
+  have := NS_stepCore h0 hf hv h
+  exact ⟨this.2.2, this⟩
 
 end Irismod.Props.C08
